@@ -60,6 +60,12 @@ INSTR_FORMS = [  # (text template, near, size) ; {L} = a label
     ("JPF {L}", False, 4), ("CALLF {L}", False, 4), ("JP {L}", True, 3), ("CALL {L}", True, 3), ("JPZ {L}", True, 3), ("JPNC {L}", True, 3),
     ("JR +0x05", False, 2), ("ADD A, 0x01", False, 2), ("MV (BP+0x10), 0x55", False, 3), ("MVP (BP+0x10), {L}", False, 5),
     ("CMP [{L}], 0x00", False, 5), ("AND [{L}], 0x0F", False, 5),
+    # one opcode, several addressing sub-modes of different encoded length (the size of a statement is not a function of its
+    # opcode and prefix alone)
+    ("MV A, [X]", False, 2), ("MV A, [X+0x04]", False, 3), ("MV A, [X++]", False, 2), ("MV A, [--X]", False, 2), ("MV A, [X-0x02]", False, 3),
+    ("MV [Y], A", False, 2), ("MV [Y+0x7F], A", False, 3), ("MV BA, [U]", False, 2), ("MV BA, [U+0x01]", False, 3),
+    ("MV A, [(0x10)]", False, 3), ("MV A, [(0x10)+0x02]", False, 4), ("MV [(0x20)], A", False, 3), ("MV [(0x20)-0x01], A", False, 4),
+    ("MV (0x30), [X]", False, 3), ("MV (0x30), [X+0x05]", False, 4), ("MV [Y], (0x31)", False, 3), ("MV [Y+0x06], (0x31)", False, 4),
 ]
 
 
